@@ -14,6 +14,8 @@ pub fn instances(tier: &str) -> Vec<String> {
     for n in 1..=(if tier == "thorough" { 4 } else { 3 }) { v.push(format!("norminf:n={}", n)); v.push(format!("norminf_laws:n={}", n)); }
     for n in 0..=(if tier == "thorough" { 3 } else { 2 }) { v.push(format!("triangle2:n={}", n)); }
     for n in 2..=(if tier == "thorough" { 9 } else { 5 }) { v.push(format!("space:n={}", n)); }
+    // "generated sequences are monotone" over f64: rounding must not reorder neighbours (raw DAG, QF_FP)
+    for n in 2..=(if tier == "thorough" { 5 } else { 4 }) { v.push(format!("fp_space:n={}", n)); }
     // element-wise arithmetic is ONE IEEE operation per entry (props/fparith.rs)
     v.push("fp_arith:of=vector,n=2".into());
     // Vector<Complex<f64>>: conj / real / norm_inf and the generic operators at the complex instantiation
@@ -194,6 +196,19 @@ pub fn body(inst: &str) {
         "norminf_laws" => norms(n, &a, &b, s, 2),
         "triangle2" => norms(n, &a, &b, s, 3),
         "space" => space(n),
+        "fp_space" => {
+            // linspace(a, b, n) for finite doubles a < b (|a|, |b| <= 1e100): v[i] <= v[i+1] as doubles, v[0] == a.
+            // (Rounding is monotone, so a + h*i with h >= 0 cannot go down; a convex-combination formula can.)
+            use ohsl_sym::Vector as V2;
+            let (lo, hi) = (Sym::var("lo"), Sym::var("hi"));
+            let dom = vec![le(lo.abs(), Sym::lit(1.0e100)), le(hi.abs(), Sym::lit(1.0e100)), lt(lo, hi)];
+            must("linspace", || V2::<Sym>::linspace(lo, hi, n), |v| {
+                if !check_that(v.size() == n, || "linspace has n elements".into()) { return; }
+                prove_fp("linspace over f64 :: starts exactly at a", &dom, eq(v[0], lo));
+                for i in 0..n - 1 { prove_fp(&format!("linspace over f64 :: is non-decreasing for a < b ({} -> {})", i, i + 1), &dom, le(v[i], v[i + 1])); }
+            });
+            control("fp_space control", eq(lo, hi));
+        }
         _ => panic!("unknown C15 instance"),
     }
 }
